@@ -346,6 +346,9 @@ func (g *Gen) sortOf(t types.Type) string {
 }
 
 func (g *Gen) fieldAcc(sortName string, st *types.Struct, i int) string {
+	if st.Field(i).Name() == "_" {
+		return sym(fmtf("%s._%d", sortName, i)) // blank fields may repeat
+	}
 	return sym(fmtf("%s.%s", sortName, st.Field(i).Name()))
 }
 
@@ -931,6 +934,21 @@ func (g *Gen) translate() {
 			if p.Comment != "" {
 				g.seq++
 				g.names[p.Comment] = append(g.names[p.Comment], nameRef{p, false, b, g.seq})
+				if p.Comment == "rangeint.iter" {
+					g.names["rangeiter"] = append(g.names["rangeiter"], nameRef{p, false, b, g.seq})
+				}
+			}
+		}
+		// source variables bound to a phi of this block (e.g. `for ci := range n`) are nameable
+		// at the block head, where loop invariants are evaluated
+		for _, in := range b.Instrs {
+			if dr, ok := in.(*ssa.DebugRef); ok && !dr.IsAddr {
+				if ph, isPhi := dr.X.(*ssa.Phi); isPhi && ph.Block() == b {
+					if obj, ok := dr.Object().(*types.Var); ok && !obj.IsField() {
+						g.seq++
+						g.names[obj.Name()] = append(g.names[obj.Name()], nameRef{ph, false, b, g.seq})
+					}
+				}
 			}
 		}
 		if isHead {
